@@ -329,10 +329,38 @@ class Checker(object):
         names = rn.OUTPUTS[:3] if sld_only else rn.OUTPUTS
         what = "all" if len(bad) == len(names) else "+".join(bad)
         case["failing_index"] = i
-        acc.violation("eq:%s:%s:%s" % (what, route, cls), case,
-                      dict((k, ref[k]) for k in names), dict((k, repr(obs[k])) for k in names),
-                      standalone=standalone, detail=dict(wavelength=w, failing=bad))
+        where = "direct" if route.startswith("direct") else "compound"
+        cause = self.diagnose_table(frags, w) if has_table else None
+        sig = cause if cause else "eq:%s:%s" % (what, where)
+        acc.violation(sig, case, dict((k, ref[k]) for k in names), dict((k, repr(obs[k])) for k in names),
+                      standalone=standalone, detail=dict(wavelength=w, failing=bad, route=route, cls=cls))
         return False
+
+    def diagnose_table(self, frags, w):
+        """Attribute a failing case to its cause: if the per-atom scattering length that the library serves for a
+        table-driven atom at this wavelength (public method Neutron.scattering_by_wavelength) is not the
+        interpolated, end-clamped table value, the signature names that, not the outputs it spoils."""
+        for sym, a in self.table_atoms(frags):
+            key = (sym, a, 0)
+            tk = ("Lu", 176) if (sym, a) == ("Lu", 0) else (sym, a)
+            xs = self.data.tables[tk][0]
+            region = "below-table" if w < xs[0] else "above-table" if w > xs[-1] else "inside-table"
+            label = "table-interpolation:%s%s" % ("natural-Lu-mix:" if (sym, a) == ("Lu", 0) else "", region)
+            try:
+                with np.errstate(all="ignore"):
+                    b, sig = lib_atom(self.pt, key).neutron.scattering_by_wavelength(w)
+                b = complex(b); sig = float(sig)
+            except Exception:
+                return label
+            ok = False
+            for lu in (("mass", "nsf") if (sym, a) == ("Lu", 0) else ("mass",)):
+                re_, im_, s_, mre, mim, msig = self.data.atom_scattering(key, w, lu)
+                if (abs(b.real - re_) <= 1e-9 * mre and abs(b.imag - im_) <= 1e-9 * mim
+                        and abs(sig - s_) <= 1e-9 * msig):
+                    ok = True
+            if not ok:
+                return label
+        return None
 
     @staticmethod
     def _flatten(got, sld_only):
